@@ -62,9 +62,19 @@ pub fn gen_container(rng: &mut Rng, max_payload: usize) -> ContainerSpec {
         let mut tape = [0u8; 9];
         let mut ext = [0u8; 3];
         let mut icao = [0u8; 4];
-        let ascii = rng.chance(1, 2);
-        for b in tape.iter_mut().chain(ext.iter_mut()).chain(icao.iter_mut()) {
-            *b = if ascii { rng.range(0x20, 0x7e) as u8 } else { rng.u8() };
+        match rng.below(3) {
+            0 => {
+                // valid UTF-8 of mixed character widths: boundaries fall on arbitrary byte offsets
+                tape.copy_from_slice(&enc::utf8_fill(rng, 9));
+                ext.copy_from_slice(&enc::utf8_fill(rng, 3));
+                icao.copy_from_slice(&enc::utf8_fill(rng, 4));
+            }
+            k => {
+                let ascii = k == 1;
+                for b in tape.iter_mut().chain(ext.iter_mut()).chain(icao.iter_mut()) {
+                    *b = if ascii { rng.range(0x20, 0x7e) as u8 } else { rng.u8() };
+                }
+            }
         }
         VolHeader {
             tape,
@@ -191,6 +201,19 @@ pub fn check_container(obs: &mut Obs, spec: &ContainerSpec, case_index: u64) {
             return;
         }
         Ok(Ok(h)) => {
+            // the same 24 bytes read in pieces (a reader that returns short reads) give the same header
+            let mut rd = mon::DribbleReader::new(std::io::Cursor::new(&bytes[..]), bytes.len() as u64 ^ 0x5eed);
+            match mon::catch(|| nexrad_data::volume::Header::deserialize(&mut rd)) {
+                Ok(Ok(h2)) if h2 == h => obs.count("headers_identical_through_short_reads", 1),
+                Ok(other) => {
+                    obs.violation("volume header depends on how the reader chunks the bytes (short reads)", format!("{:?}", other.map(|x| format!("{:?}", x)).map_err(|e| format!("{e:?}"))), replay.clone());
+                    return;
+                }
+                Err(p) => {
+                    obs.violation(format!("Header::deserialize {}", p.signature()), p.message, replay.clone());
+                    return;
+                }
+            }
             let w = &spec.header;
             if h.tape_filename() != utf8_or_none(&w.tape) {
                 obs.violation("header tape_filename", format!("wrote {:?}, got {:?}", w.tape, h.tape_filename()), replay.clone());
